@@ -52,6 +52,10 @@ type toyState struct {
 	// every broadcast also carries a fresh, unverifiable nonce that enters the result: two versions of
 	// one broadcast are both valid, and parties that used different versions end with different results
 	nonces map[int]map[party.ID][]byte
+	// the last round's messages carry a digest of the sender's view of everything before; it is NOT
+	// checked when the message is verified but when the round is finalized, which then ends in an
+	// identifiable-abort round naming the senders whose digest differs (the path cmp sign round 5 takes)
+	views map[party.ID][]byte
 }
 
 func toyTag(kind string, r int, v []byte, to party.ID) []byte {
@@ -63,6 +67,7 @@ func toyTag(kind string, r int, v []byte, to party.ID) []byte {
 // contents (one type per direction; the round number travels in the header only)
 type toyP struct {
 	V []byte
+	T []byte // last round only: digest of the sender's view, compared at Finalize
 	n round.Number
 }
 
@@ -72,6 +77,7 @@ type toyB struct {
 	round.NormalBroadcastContent
 	V []byte
 	W []byte
+	T []byte
 	n round.Number
 }
 
@@ -81,6 +87,7 @@ type toyRB struct {
 	round.ReliableBroadcastContent
 	V []byte
 	W []byte
+	T []byte
 	n round.Number
 }
 
@@ -131,14 +138,17 @@ func (r *toyRound) expected(kind string, from, to party.ID) []byte {
 }
 
 func (r *toyRoundB) StoreBroadcastMessage(msg round.Message) error {
-	var v, w []byte
+	var v, w, tv []byte
 	switch b := msg.Content.(type) {
 	case *toyB:
-		v, w = b.V, b.W
+		v, w, tv = b.V, b.W, b.T
 	case *toyRB:
-		v, w = b.V, b.W
+		v, w, tv = b.V, b.W, b.T
 	default:
 		return round.ErrInvalidContent
+	}
+	if r.n == len(r.st.shapes)+1 {
+		r.st.views[msg.From] = append([]byte{}, tv...)
 	}
 	if len(v) != 32 || len(w) != 16 {
 		return errors.New("toy: broadcast value must be 32 bytes, nonce 16")
@@ -159,6 +169,21 @@ func (r *toyRoundB) StoreBroadcastMessage(msg round.Message) error {
 	r.st.gotB[r.n][msg.From] = true
 	r.st.nonces[r.n][msg.From] = append([]byte{}, w...)
 	return nil
+}
+
+// viewDigest digests everything this party holds from the rounds before the last one.
+func (r *toyRound) viewDigest() []byte {
+	h := sha256.New()
+	last := len(r.st.shapes) + 1
+	for _, id := range r.PartyIDs() {
+		fmt.Fprintf(h, "%s=%x;", id, r.st.vals[id])
+	}
+	for rn := 2; rn < last; rn++ {
+		for _, id := range r.PartyIDs() {
+			fmt.Fprintf(h, "%d/%s=%x;", rn, id, r.st.nonces[rn][id])
+		}
+	}
+	return h.Sum(nil)
 }
 
 func (r *toyRound) freeNonce(n int) bool {
@@ -194,6 +219,9 @@ func (r *toyRound) StoreMessage(msg round.Message) error {
 		r.st.vals[msg.From] = append([]byte{}, p.V...)
 	}
 	r.st.gotP[r.n][msg.From] = true
+	if r.n == len(r.st.shapes)+1 && !r.shape().Bcast {
+		r.st.views[msg.From] = append([]byte{}, p.T...)
+	}
 	return nil
 }
 
@@ -207,6 +235,19 @@ func (r *toyRound) Finalize(out chan<- *round.Message) (round.Session, error) {
 			if r.shape().P2P && !r.st.gotP[r.n][j] {
 				return r.AbortRound(fmt.Errorf("toy: the round-%d message of %s was never handed to the round", r.n, j), r.SelfID()), nil
 			}
+		}
+	}
+	if r.n >= 2 && r.n == len(r.st.shapes)+1 && len(r.st.shapes) >= 2 {
+		// (with a single message round the senders' values are only just being revealed: no view to compare)
+		mine := r.viewDigest()
+		var culprits []party.ID
+		for _, j := range r.OtherPartyIDs() {
+			if !bytes.Equal(r.st.views[j], mine) {
+				culprits = append(culprits, j)
+			}
+		}
+		if len(culprits) > 0 {
+			return r.AbortRound(errors.New("toy: view digest differs"), culprits...), nil
 		}
 	}
 	if r.n == 1 {
@@ -247,11 +288,15 @@ func (r *toyRound) Finalize(out chan<- *round.Message) (round.Session, error) {
 			}
 		}
 		r.st.nonces[next][r.SelfID()] = w
+		var tv []byte
+		if next == len(r.st.shapes)+1 && len(r.st.shapes) >= 2 {
+			tv = r.viewDigest()
+		}
 		var content round.Content
 		if sh.Reliable {
-			content = &toyRB{V: v, W: w, n: round.Number(next)}
+			content = &toyRB{V: v, W: w, T: tv, n: round.Number(next)}
 		} else {
-			content = &toyB{V: v, W: w, n: round.Number(next)}
+			content = &toyB{V: v, W: w, T: tv, n: round.Number(next)}
 		}
 		if err := r.BroadcastMessage(out, content); err != nil {
 			return r, err
@@ -263,7 +308,11 @@ func (r *toyRound) Finalize(out chan<- *round.Message) (round.Session, error) {
 			if next == 2 && !sh.Bcast {
 				v = r.st.own
 			}
-			if err := r.SendMessage(out, &toyP{V: v, n: round.Number(next)}, j); err != nil {
+			var tv []byte
+			if next == len(r.st.shapes)+1 && len(r.st.shapes) >= 2 && !sh.Bcast {
+				tv = r.viewDigest()
+			}
+			if err := r.SendMessage(out, &toyP{V: v, T: tv, n: round.Number(next)}, j); err != nil {
 				return r, err
 			}
 		}
@@ -288,7 +337,7 @@ func StartToy(selfID party.ID, ids []party.ID, shapes []ToyShape) protocol.Start
 		if err != nil {
 			return nil, err
 		}
-		st := &toyState{shapes: shapes, vals: map[party.ID][]byte{}, gotB: map[int]map[party.ID]bool{}, gotP: map[int]map[party.ID]bool{}, nonces: map[int]map[party.ID][]byte{}}
+		st := &toyState{shapes: shapes, vals: map[party.ID][]byte{}, gotB: map[int]map[party.ID]bool{}, gotP: map[int]map[party.ID]bool{}, nonces: map[int]map[party.ID][]byte{}, views: map[party.ID][]byte{}}
 		return &toyRound{Helper: helper, n: 1, st: st}, nil
 	}
 }
